@@ -371,6 +371,11 @@ def lookLine (k : IngestSpec.Kfg) (lk : Look) (l : List String) : Look :=
   | _ => lk
 
 def run (c : Case) : CaseOut := Id.run do
+  -- option plumbing: a strategy name outside {drop, block, expand} is refused at Execute
+  if c.cfg.any (fun l => l.head? == some "badstrat") then
+    let refused := c.ops.all fun (_, o) => o == [["refused"]]
+    return { obs := c.ops.map fun _ => [["refused"]], spec := if refused then "ok" else "fail:unknown-strategy-name-accepted",
+             tags := ["strategy-name-not-canonical"] }
   let mut d := initD c
   let k := kfgOf d.c
   let mut obs : List (List (List String)) := []
